@@ -102,7 +102,7 @@ def _history(draw):
     n = draw(st.integers(1, 30))
     for _ in range(n):
         op = draw(st.sampled_from(["add_body", "add_body", "add_joint", "add_duplicate", "remove", "pop", "extend",
-                                   "readd", "assemble", "assemble"]))
+                                   "readd", "assemble", "assemble", "remove_absent"]))
         ops.append({"op": op, "name": draw(st.sampled_from(NAMES)), "i": draw(st.integers(0, 50)),
                     "j": draw(st.integers(0, 50)), "kind": draw(st.sampled_from(["rigid", "point", "frame"])),
                     "named": draw(st.booleans())})
@@ -368,6 +368,19 @@ def check_config(spec, res):
                 a, b = v[0], vals2[name][0]
                 if a.shape != b.shape or (a.size and float(np.max(np.abs(a - b))) > 1e-13 * (1 + float(np.max(np.abs(a))))):
                     res.fail("reassemble_keeps_evaluations", f"System.{name}", None, feats)
+        # ---- handing the system its own initial state keeps layout and state ------------------------
+        from cardillo.solver import SolverOptions
+        lay0 = _layout(system)
+        q00, u00 = system.q0.copy(), system.u0.copy()
+        with quiet():
+            system.set_new_initial_state(q00.copy(), u00.copy(), options=SolverOptions(compute_consistent_initial_conditions=False))
+        res.ok()
+        if _layout(system) != lay0:
+            res.fail("reassemble_keeps_layout", "System.set_new_initial_state", None, feats)
+        elif system.q0.shape != q00.shape or system.u0.shape != u00.shape or not (
+                np.allclose(q00, system.q0, rtol=0, atol=1e-14) and np.allclose(u00, system.u0, rtol=0, atol=1e-14)):
+            res.fail("reassemble_keeps_initial_state", "System.set_new_initial_state", None, feats,
+                     f"q0 {q00.shape}->{system.q0.shape}")
     # overlapping contributions on the same DOFs
     cnt = np.zeros(system.nu, dtype=int)
     for c in system.contributions:
@@ -394,6 +407,7 @@ def check_history(spec, res):
     counter = [0]
     removed_then = False
     saw_remove = False
+    gone = []  # contributions that were removed and not added again
 
     def new_body(op):
         counter[0] += 1
@@ -481,6 +495,8 @@ def check_history(spec, res):
                 else:
                     system.remove(c)
                 model.remove(c)
+                if o != "readd":
+                    gone.append(c)
                 saw_remove = True
                 if o == "readd":
                     if not invariant(step, "remove"):
@@ -493,6 +509,19 @@ def check_history(spec, res):
                     if c.name != name_before:
                         res.fail("readd_keeps_name", site, None, feats, f"step {step}: {name_before} -> {c.name}")
                         return
+            elif o == "remove_absent":
+                # removing something that is not in the system (never added, or removed before) is rejected and leaves the
+                # registry alone - also when a current contribution carries the same name
+                c = gone[op["i"] % len(gone)] if (gone and op["named"]) else new_body(dict(op, named=False))
+                raised = False
+                try:
+                    system.remove(c)
+                except (ValueError, KeyError):
+                    raised = True
+                res.ok()
+                if not raised:
+                    res.fail("remove_of_absent_raises", site, None, feats, f"step {step}")
+                    return
             elif o == "extend":
                 bs = [new_body(op), new_body(dict(op, kind="point"))]
                 system.extend(bs)
